@@ -43,6 +43,8 @@ type Extra struct {
 	// attributes) and of the module's raw store plus the account numbers of the model accounts
 	EvHash string `json:"evh"`
 	StHash string `json:"sth"`
+	// the module's own registered invariants (keeper/invariants.go) evaluated on the state after the step: names of the broken ones
+	ModInv []string `json:"modinv"`
 }
 
 // Step is one line of the recorded trace.
@@ -298,6 +300,7 @@ func (e *Env) Exec(a Action, raw map[string]any) (st Step) {
 		st.Extra.Note += " projection error: " + perr.Error()
 	}
 	st.St = s
+	st.Extra.ModInv = e.ModuleInvariants(e.Ctx)
 	return st
 }
 
